@@ -2,6 +2,6 @@
    An unrecognised shape yields a *Unknown constructor / false, which breaks C07_facts_pinned. *)
 From Codegen Require Import Codegen.
 Definition gen_codegen_facts : facts :=
-  mkFacts (mkLF AsgName DsBare RetBare false) (mkLF AsgName DsList RetBracket false)
+  mkFacts (mkLF AsgName DsList RetBracket false) (mkLF AsgName DsList RetBracket false)
           (mkLF AsgName DsList RetBracket true) (mkLF AsgLitK DsSplat RetBare true)
-          OrdDecl false true true true.
+          OrdDep true true true true.
